@@ -242,6 +242,44 @@ func (tm *termer) render(v ssa.Value) *Term {
 		}
 		return &Term{Op: "const:" + v.Value.ExactString()}
 	case *ssa.Parameter:
+		if o := extractedInto(v.Parent()); o != nil {
+			// the helper is a named block of o: its parameter is what o passes
+			idx := -1
+			for i, p := range v.Parent().Params {
+				if p == v {
+					idx = i
+				}
+			}
+			var args []ssa.Value
+			for _, f := range append([]*ssa.Function{o}, o.AnonFuncs...) {
+				for _, b := range f.Blocks {
+					for _, in := range b.Instrs {
+						if c, ok := in.(ssa.CallInstruction); ok && c.Common().StaticCallee() == v.Parent() && idx >= 0 && idx < len(c.Common().Args) {
+							args = append(args, c.Common().Args[idx])
+						}
+					}
+				}
+			}
+			if len(args) == 1 {
+				return tm.Of(args[0])
+			}
+			if len(args) > 1 {
+				first := tm.Of(args[0])
+				same := true
+				var ts []*Term
+				for _, a := range args {
+					t := tm.Of(a)
+					ts = append(ts, t)
+					if t.String() != first.String() {
+						same = false
+					}
+				}
+				if same {
+					return first
+				}
+				return &Term{Op: "phi", Args: ts}
+			}
+		}
 		for i, p := range v.Parent().Params {
 			if p == v {
 				return &Term{Op: fmt.Sprintf("param:%d:%s", i, typeShort(v.Type()))}
@@ -333,7 +371,14 @@ func (tm *termer) render(v ssa.Value) *Term {
 		case token.GEQ:
 			return &Term{Op: "<=", Args: []*Term{y, x}}
 		case token.NEQ:
+			if eq := compareIsEqual(x, y); eq != nil {
+				return &Term{Op: "!", Args: []*Term{eq}}
+			}
 			return &Term{Op: "!", Args: []*Term{{Op: "==", Args: []*Term{x, y}, V: v}}}
+		case token.EQL:
+			if eq := compareIsEqual(x, y); eq != nil {
+				return eq
+			}
 		}
 		return &Term{Op: v.Op.String(), Args: []*Term{x, y}}
 	case *ssa.Extract:
@@ -716,4 +761,17 @@ func loadEpoch(ld *ssa.UnOp) string {
 		}
 	}
 	return m[ld]
+}
+
+// compareIsEqual: bytes.Compare(a, b) == 0 (also strings.Compare) is rendered as the equality call it is equivalent to.
+func compareIsEqual(x, y *Term) *Term {
+	for _, p := range [][2]*Term{{x, y}, {y, x}} {
+		if p[1].Op == "const:0" && len(p[0].Args) == 2 {
+			switch p[0].Op {
+			case "call:bytes.Compare":
+				return &Term{Op: "call:bytes.Equal", Args: p[0].Args}
+			}
+		}
+	}
+	return nil
 }
